@@ -1,7 +1,11 @@
 package main
 
 import (
+	"errors"
+	"io"
 	"math/rand"
+	"net"
+	"os"
 	"reflect"
 	"time"
 
@@ -26,7 +30,34 @@ type WCfg struct {
 	Link int `json:"link"`
 }
 
+// flakySink fails the next transport write with a chosen error (nothing is written then)
+type flakySink struct {
+	recWriter
+	failNext error
+}
+
+func (s *flakySink) Write(p []byte) (int, error) {
+	if s.failNext != nil {
+		err := s.failNext
+		s.failNext = nil
+		s.calls++
+		return 0, err
+	}
+	return s.recWriter.Write(p)
+}
+
+type deadlineErr struct{}
+
+func (deadlineErr) Error() string   { return "verif: i/o timeout" }
+func (deadlineErr) Timeout() bool   { return true }
+func (deadlineErr) Temporary() bool { return true }
+func (deadlineErr) Unwrap() error   { return os.ErrDeadlineExceeded }
+
+var failKinds = map[string]error{"generic": errors.New("verif: write failed"), "deadline": deadlineErr{}, "eof": io.EOF,
+	"closed": net.ErrClosed, "short": io.ErrShortWrite}
+
 type witem struct {
+	fail    string // transport failure injected for this write ("" = none)
 	kind    string
 	d       int
 	vals    [][]B
@@ -54,7 +85,7 @@ func keyOf(b B) *frame.V2Key {
 	return frame.NewV2Key(b)
 }
 
-func mkLink(impl string, cfg WCfg, drw *dialect.ReadWriter, sink *recWriter) (lw linkWriter, ok bool, panicked bool) {
+func mkLink(impl string, cfg WCfg, drw *dialect.ReadWriter, sink io.Writer) (lw linkWriter, ok bool, panicked bool) {
 	defer func() {
 		if r := recover(); r != nil {
 			ok, panicked = false, true
@@ -81,7 +112,7 @@ func mkLink(impl string, cfg WCfg, drw *dialect.ReadWriter, sink *recWriter) (lw
 }
 
 func runLink(rec *Rec, impl string, cfg WCfg, drw *dialect.ReadWriter, dl []int, items []witem, tag string) {
-	sink := &recWriter{}
+	sink := &flakySink{}
 	lw, ok, pan := mkLink(impl, cfg, drw, sink)
 	if !ok {
 		rec.Put(M{"e": "WINIT", "impl": impl, "cfg": cfg, "init_ok": false, "panic": pan})
@@ -99,6 +130,10 @@ func runLink(rec *Rec, impl string, cfg WCfg, drw *dialect.ReadWriter, dl []int,
 			m = &message.MessageRaw{ID: uint32(it.id), Payload: append([]byte{}, it.payload...)}
 			w["id"], w["payload"] = it.id, it.payload
 		}
+		if it.fail != "" {
+			sink.failNext = failKinds[it.fail]
+		}
+		w["inj"] = it.fail != ""
 		t0 := ticksNow()
 		err, p := func() (err error, p bool) {
 			defer func() {
@@ -109,6 +144,7 @@ func runLink(rec *Rec, impl string, cfg WCfg, drw *dialect.ReadWriter, dl []int,
 			return lw.write(m), false
 		}()
 		t1 := ticksNow()
+		sink.failNext = nil
 		w["ok"] = err == nil && !p
 		w["panic"] = p
 		w["out"] = B(append([]byte{}, sink.buf.Bytes()[before:]...))
@@ -130,6 +166,16 @@ func cmdWLink(o opts) {
 	protos := allProtos()
 	ix := defIndex(protos)
 	com := findDialect("common")
+	if mode == "c09" {
+		// every shipped message plus the user messages: ids up to 0xFFFFFF take part in v2 histories
+		comPlus := findDialect("allplus")
+		com = &dialect.Dialect{Version: comPlus.Version}
+		for _, m := range comPlus.Messages {
+			if mustRW(findDialect("common")).GetMessage(m.GetID()) != nil || m.GetID() >= 61000 {
+				com.Messages = append(com.Messages, m)
+			}
+		}
+	}
 	drw := mustRW(com)
 	dl := dialectIndices(com, ix)
 	var small []message.Message // message types with small payloads keep the traces light
@@ -164,6 +210,9 @@ func cmdWLink(o opts) {
 			case refusals && c < 5 && notInCommon != nil: // decoded message outside the dialect
 				items = append(items, witem{kind: "msg", d: ix[reflect.TypeOf(notInCommon)], msg: notInCommon,
 					vals: zeroVals(notInCommon)})
+			case refusals && c < 9: // the transport fails this write (timeouts, closed pipes, generic errors): nothing goes out
+				items = append(items, witem{kind: "msg", d: ix[reflect.TypeOf(m)], msg: m, vals: vals,
+					fail: []string{"generic", "deadline", "eof", "closed", "short"}[r.Intn(5)]})
 			case c < 25: // raw (already encoded) message of the dialect
 				rwm := drw.GetMessage(m.GetID())
 				pl, _ := safeWrite(rwm, newMsg(m, vals), v == 2)
